@@ -137,7 +137,10 @@ func (vc *VC) loopEnv(fr *frame, b *ssa.BasicBlock, st *State, phiOverride map[*
 	// iterator of a map range whose Next is in this header
 	for _, in := range b.Instrs {
 		if nx, ok := in.(*ssa.Next); ok {
-			if it := fr.iterOf[nx.Iter]; it != nil {
+			if it := fr.iterOf[nx.Iter]; it != nil && !it.str.IsZero() {
+				// range over a string: the byte position the next rune is decoded at
+				env.vars["rangepos"] = TV{Select(vc.hget(st.heap, iterStrPos), it.id), FromGo(types.Typ[types.Int])}
+			} else if it != nil {
 				vis := Select(vc.hget(st.heap, iterVisited), it.id)
 				env.vars["visited"] = TV{vis, setOf(*it.mt.Key)}
 			}
